@@ -118,8 +118,8 @@ pub struct World {
     pub known_arcs: Vec<(Vec<u8>, c15::Files)>,
 }
 
-const DIRS: [&str; 8] = ["m", "data", "Subdir", "a", "x.y", "zz", "scripts", "tex\\hi"];
-const FILES: [&str; 17] = ["GameData.bin.lz", "one.bin", "two.txt", "mess.cmp", "f.cms", "plain", "three.txt", "arc.arc", "pack.bin", "t.bin.lz", "GameData.bin", "n-1_@.dat", "tex.ctpk", "model.bch", "ui.bcres", "img.tpl", "odd\\name.bin"];
+const DIRS: [&str; 9] = ["m", "data", "Subdir", "a", "x.y", "zz", "scripts", "tex\\hi", "ver1.0"];
+const FILES: [&str; 21] = ["GameData.bin.lz", "one.bin", "two.txt", "mess.cmp", "f.cms", "plain", "three.txt", "arc.arc", "pack.bin", "t.bin.lz", "GameData.bin", "n-1_@.dat", "tex.ctpk", "model.bch", "ui.bcres", "img.tpl", "odd\\name.bin", "UPPER.LZ", "Mixed.Cmp", "map.v2.cmp", "SAVE.CMS"];
 
 pub fn gen_dir(rng: &mut Rng) -> String {
     let d = rng.range(0, 3);
@@ -138,6 +138,11 @@ pub fn gen_path(rng: &mut Rng) -> String {
 }
 
 fn payload(rng: &mut Rng) -> Vec<u8> {
+    if rng.chance(1, 9) {
+        // a payload that is itself a complete compressed stream (an already-compressed blob)
+        let lz13 = rng.bool();
+        return ref_stream(rng, &GameCfg { be: false, unicode: false, lz13 }, 120);
+    }
     match rng.below(6) {
         0 => Vec::new(),
         1 => {
